@@ -60,6 +60,22 @@ func runC07(c *eng.Ctx) {
 			// callback only on key == needleId
 			keyEq := eng.Cmp(func(v ssa.Value) bool { return eng.MentionsCall(v, "idx.IdxFileEntry") }, func(v ssa.Value) bool { return eng.IsParam(v, "needleId") }, token.EQL)
 			c.Guard("STRIDE-ecx", "only-matching-key", fn, eng.Entry(fn), cbs, eng.PassEdges(fn, keyEq), "the mutator runs only for the entry whose key equals the requested needle id")
+			// ... and for every such entry, whatever its size (an empty blob has size 0 and is live): once the key matched
+			// and a mutator was given, no path returns without running it
+			noFn := eng.PassEdges(fn, func(cond ssa.Value) (bool, bool) {
+				b, ok := cond.(*ssa.BinOp)
+				if !ok || (b.Op != token.EQL && b.Op != token.NEQ) || !eng.IsNilConst(b.Y) || !eng.IsParamLike(b.X, "processNeedleFn") {
+					return false, false
+				}
+				return true, b.Op == token.EQL
+			})
+			okAll := len(eng.PassEdges(fn, keyEq)) > 0
+			for _, st := range startsOf(eng.PassEdges(fn, keyEq)) {
+				if hit, _ := eng.Search(st, eng.IsReturn, eng.SearchOpt{Cut: noFn, Barrier: eng.AnyOf(cbs)}); hit != nil {
+					okAll = false
+				}
+			}
+			c.Ob("STRIDE-ecx", eng.FuncName(fn)+" every-matching-entry", okAll, cbs[0].Pos(), "the mutator runs for every entry whose key matches, independent of the entry's size (an entry of an empty blob is live)")
 		}
 		// buffer is one index entry
 		for i, k := range eng.ByteBufLens(fn) {
